@@ -62,3 +62,29 @@ func init() {
 		Rules:       []*Rule{runesRule("pkg/evaluator", "stringVal", 4)},
 	})
 }
+
+func init() {
+	Register(&Property{
+		ID: "C14",
+		Explanation: "Decides the interruptibility mechanism structurally: the dispatcher eval tests the stop flag (returning ErrStopped) and yields " +
+			"before it dispatches on the node kind; every evaluator loop that runs user code passes on each iteration through a call that must " +
+			"reach eval; every call that can reach eval has its error returned wherever it may be non-nil, with no further evaluation in between " +
+			"(so 'stopped' ends the run without evaluating anything further); the browser platform's endless loops start each iteration with the " +
+			"stop test and the exported stop function raises the flag (R-YIELD).",
+		NotDecided:  "The one-step latency between raising the flag during a yield and the next eval, and the prefix-of-effects clause (schedule-level).",
+		Assumptions: []string{"built-ins cannot re-enter the evaluator (they receive no evaluator reference)"},
+		Rules:       []*Rule{ruleYield},
+	})
+	Register(&Property{
+		ID: "C10",
+		Explanation: "Decides the scoping and control-flow mechanism structurally: every scope push is released on every exit (deferred pop), function " +
+			"and handler bodies run in a fresh scope whose parent is the global scope, a block evaluated in a loop gets a scope per iteration " +
+			"(R-SCOPEPAIR/evaluator); break/return signals of a block are inspected or passed on, loops convert a break into a plain result and " +
+			"pass a return on, calls unwrap the return signal, a zero step is rejected before the first iteration, the range operand is evaluated " +
+			"once (R-SIGNAL); every loop iteration re-evaluates its condition block through eval (R-YIELD loop clause); the map ranger iterates a " +
+			"private snapshot (R-FRESH).",
+		NotDecided:  "The arithmetic of numeric ranges and which elements are visited; the parser's static scope tracking (see C05).",
+		Assumptions: []string{},
+		Rules:       []*Rule{ruleScopePairEval, ruleSignal, ruleFresh},
+	})
+}
